@@ -177,7 +177,10 @@ def run_c15(ctx):
         override = None
         allowed_now = dict(allowed)
         if t.flag(1, 3, "override-combos"):
-            sub = t.perm(a_vals, "a-sub")[: t.int_between(1, len(a_vals), "na-sub")]
+            # an override replaces the default choices for this run only; it may
+            # name values the defaults do not contain
+            pool = t.perm(a_vals + [v for v in (21, 22) if v not in a_vals], "a-sub")
+            sub = pool[: t.int_between(1, min(3, len(pool)), "na-sub")]
             override = {"a": list(sub)}
             allowed_now["a"] = list(sub)
         m_const = t.pick([0, 4], "m")
